@@ -16,7 +16,9 @@ const GUESS_HZ_100: f64 = 100.0; // Common frequency guess: 100 Hz
 const GUESS_TOLERANCE: f64 = 0.10; // Tolerance for frequency guessing
 
 // Connection tracking cache TTL
-const CONNECTION_CACHE_TTL_SECS: u64 = 30; // Time-to-live for cached connection data (seconds)
+// Must cover the whole measurement window (MAX_TWAIT = 10 minutes): with a shorter TTL the reference
+// timestamp expired before a second segment 30 s .. 10 min later could be measured against it.
+const CONNECTION_CACHE_TTL_SECS: u64 = MAX_TWAIT / 1000; // Time-to-live for cached connection data (seconds)
 
 #[derive(Debug, Hash, Eq, PartialEq, Clone)]
 pub struct Connection {
